@@ -17,4 +17,4 @@ for v in ctx.violations:
     k = (v['site'], v.get('kind'), v.get('variant'), v['what'][:60])
     if k in seen: continue
     seen.add(k)
-    print(json.dumps(common.jsonable({a: b for a, b in v.items() if a not in ('case',)}))[:700])
+    print(json.dumps(common.jsonable({a: b for a, b in v.items() if a not in ("case",)}))[:700]); print("   CASE", json.dumps(common.jsonable(v.get("case")))[:600])
